@@ -4,44 +4,47 @@
 (* a stage out of order, an incoherent issue list, a session that stops before its last stage, or a model whose printed *)
 (* form changed under stages that only read it, is reported.                                                            *)
 EXTENDS Pipeline, TraceIO, LoggerObs, KnownFindings
-VARIABLES l, dig, cursc
-tvars == <<order, pos, pc, status, l, dig, cursc>>
-TInit == l = 1 /\ order = <<>> /\ pos = 0 /\ pc = "idle" /\ status = "ok" /\ dig = "none" /\ cursc = -1
+VARIABLES l, dig, cursc, lab
+tvars == <<order, pos, pc, status, l, dig, cursc, lab>>
+TInit == l = 1 /\ order = <<>> /\ pos = 0 /\ pc = "idle" /\ status = "ok" /\ dig = "none" /\ cursc = -1 /\ lab = <<>>
 Done == (order # <<>> /\ pos = Len(order) + 1 /\ pc = "idle") \/ status # "ok"
 StageNow == IF pc = "inParse" \/ pos = 0 THEN "parse" ELSE IF pos \in DOMAIN order THEN order[pos] ELSE "none"
 LogOk(ev) == "log" \notin DOMAIN ev \/ LogCoherent(ev.log)
-Dev(d, ev) == FALSE
+\* Known deviation ExponentialUnitsWalk: exactly the recorded input - the units graph in which every units names the next one in two
+\* children, 40 levels deep - and exactly a hang (the walks over units references have no memory of what they visited)
+Dev(d, ev) == d = "ExponentialUnitsWalk" /\ ev.e = "Hang" /\ Len(lab) >= 2 /\ lab[1] = "units" /\ lab[2] = "doubling40"
 Step(ev) ==
     CASE ev.e = "Reset" ->
             /\ (IF cursc >= 0 /\ ~Done THEN Verdict("bad", l, cursc, <<"the session stopped before its last stage", StageNow>>) ELSE TRUE)
-            /\ order' = <<>> /\ pos' = 0 /\ pc' = "idle" /\ status' = "ok" /\ dig' = "none" /\ cursc' = ev.sc
-      [] ev.e = "Begin" -> order' = Orders[ev.order] /\ UNCHANGED <<pos, pc, status, dig, cursc>>
+            /\ order' = <<>> /\ pos' = 0 /\ pc' = "idle" /\ status' = "ok" /\ dig' = "none" /\ cursc' = ev.sc /\ lab' = <<>>
+      [] ev.e = "Begin" -> order' = Orders[ev.order] /\ lab' = (IF "label" \in DOMAIN ev THEN ev.label ELSE <<>>) /\ UNCHANGED <<pos, pc, status, dig, cursc>>
       [] ev.e = "Call" ->
-            IF ev.stage = "parse" /\ ENABLED CallParse THEN CallParse /\ UNCHANGED <<dig, cursc>>
-            ELSE IF ENABLED Call /\ ev.stage = order[pos] THEN Call /\ UNCHANGED <<dig, cursc>>
-            ELSE Verdict("bad", l, ev.sc, <<"stage called out of order", ev.stage, StageNow>>) /\ UNCHANGED <<order, pos, pc, status, dig, cursc>>
+            IF ev.stage = "parse" /\ ENABLED CallParse THEN CallParse /\ UNCHANGED <<dig, cursc, lab>>
+            ELSE IF ENABLED Call /\ ev.stage = order[pos] THEN Call /\ UNCHANGED <<dig, cursc, lab>>
+            ELSE Verdict("bad", l, ev.sc, <<"stage called out of order", ev.stage, StageNow>>) /\ UNCHANGED <<order, pos, pc, status, dig, cursc, lab>>
       [] ev.e = "Return" ->
             IF ev.stage = "parse" /\ pc = "inParse" THEN
-                /\ ReturnParse /\ UNCHANGED <<dig, cursc>>
+                /\ ReturnParse /\ UNCHANGED <<dig, cursc, lab>>
                 /\ (IF LogOk(ev) THEN TRUE ELSE Verdict("bad", l, ev.sc, <<"incoherent issue list", ev.stage>>))
             ELSE IF pc = "inStage" /\ ev.stage = order[pos] THEN
-                /\ Return /\ UNCHANGED cursc
+                /\ Return /\ UNCHANGED <<cursc, lab>>
                 /\ (IF LogOk(ev) THEN TRUE ELSE Verdict("bad", l, ev.sc, <<"incoherent issue list", ev.stage>>))
                 /\ (IF ev.stage \in {"print", "reprint"} THEN
                         /\ dig' = ev.digest
                         /\ (IF dig = "none" \/ dig = ev.digest THEN TRUE ELSE Verdict("bad", l, ev.sc, <<"the printed form of the model changed under stages that only read it">>))
                     ELSE UNCHANGED dig)
                 /\ (IF ev.stage = "analyse" /\ ev.valid THEN Verdict("nontrivial", l, ev.sc, <<"analysed">>) ELSE TRUE)
-            ELSE Verdict("bad", l, ev.sc, <<"return without a matching call", ev.stage, StageNow>>) /\ UNCHANGED <<order, pos, pc, status, dig, cursc>>
+            ELSE Verdict("bad", l, ev.sc, <<"return without a matching call", ev.stage, StageNow>>) /\ UNCHANGED <<order, pos, pc, status, dig, cursc, lab>>
       [] ev.e = "Crash" -> /\ Verdict("bad", l, ev.sc, <<"crash", StageNow, ev.what, ev.sig>>)
-                           /\ status' = "crashed" /\ pc' = "dead" /\ UNCHANGED <<order, pos, dig, cursc>>
-      [] ev.e = "Hang" -> /\ Verdict("bad", l, ev.sc, <<"hang", StageNow>>)
-                          /\ status' = "hung" /\ pc' = "dead" /\ UNCHANGED <<order, pos, dig, cursc>>
-      [] OTHER -> Verdict("bad", l, ev.sc, <<"unknown event", ev.e>>) /\ UNCHANGED <<order, pos, pc, status, dig, cursc>>
+                           /\ status' = "crashed" /\ pc' = "dead" /\ UNCHANGED <<order, pos, dig, cursc, lab>>
+      [] ev.e = "Hang" -> /\ (IF \E d \in KnownDeviations : Dev(d, ev) THEN Verdict("known", l, ev.sc, CHOOSE d \in KnownDeviations : Dev(d, ev))
+                              ELSE Verdict("bad", l, ev.sc, <<"hang", StageNow>>))
+                          /\ status' = "hung" /\ pc' = "dead" /\ UNCHANGED <<order, pos, dig, cursc, lab>>
+      [] OTHER -> Verdict("bad", l, ev.sc, <<"unknown event", ev.e>>) /\ UNCHANGED <<order, pos, pc, status, dig, cursc, lab>>
 TNext == /\ l <= Len(TraceLog) /\ l' = l + 1
          /\ Step(TraceLog[l])
 \* the last session of the trace has to be complete too
-Final == l = Len(TraceLog) + 1 /\ cursc >= 0 /\ ~Done /\ Verdict("bad", l - 1, cursc, <<"the session stopped before its last stage", StageNow>>) /\ l' = l + 1 /\ UNCHANGED <<order, pos, pc, status, dig, cursc>>
+Final == l = Len(TraceLog) + 1 /\ cursc >= 0 /\ ~Done /\ Verdict("bad", l - 1, cursc, <<"the session stopped before its last stage", StageNow>>) /\ l' = l + 1 /\ UNCHANGED <<order, pos, pc, status, dig, cursc, lab>>
 TSpec == TInit /\ [][TNext \/ Final]_tvars
 Accepted == LET d == TLCGet("stats").diameter IN PrintT(<<"DEPTH", IF d - 1 > Len(TraceLog) THEN Len(TraceLog) + 1 ELSE d>>) /\ d - 1 >= Len(TraceLog)
 =============================================================================
